@@ -373,6 +373,7 @@ Lemma read_one date q a more eof :
 Proof.
   intros Hwf Hd Hfr. unfold wf_app in Hwf.
   apply andb_true_iff in Hwf as [Hwf H3]. apply andb_true_iff in Hwf as [H1 H2].
+  apply andb_true_iff in H1 as [_ H1].
   apply no_crlf_spec in H1. destruct (wf_headers_spec _ H2) as [Wh Hte].
   unfold encode, enc_head, enc_body, expected, app_body, declared. cbn [fst snd].
   unfold hmem in *.
@@ -457,10 +458,12 @@ Proof.
       now rewrite read_all_nil.
 Qed.
 
-Lemma wf_conn_cl_ok conn : wf_conn conn = true -> forall qa, In qa conn -> cl_ok (snd qa).
+Lemma wf_conn_cl_ok conn : wf_conn conn = true ->
+  forall qa, In qa conn -> cl_ok (snd qa) /\ first_ok (snd qa) = true.
 Proof.
   unfold wf_conn. rewrite forallb_forall. intros H qa Hin. specialize (H qa Hin).
-  apply andb_true_iff in H as [_ H]. unfold wf_app in H. apply andb_true_iff in H as [_ H].
+  apply andb_true_iff in H as [_ H]. unfold wf_app in H. apply andb_true_iff in H as [H H3].
+  apply andb_true_iff in H as [H _]. apply andb_true_iff in H as [Hf _]. split; [|exact Hf].
   unfold cl_ok. destruct (hfind s_content_length (a_headers (snd qa))); [|exact I].
   destruct (parse_dec b); [discriminate | discriminate].
 Qed.
